@@ -106,7 +106,7 @@ def explore_flags(body, mark_blocks=None, mark_edges=None, stop_blocks=(), start
         if t['k'] == 'switch' and t.get('onty') == 'bool' and opl(t['on']) is not None and opl(t['on']) not in escaped:
             l = opl(t['on'])
             edges = [(bool(v), tg) for v, tg in t['tg']]
-            edges.append((0 not in [v for v, _ in t['tg']], t['else']))
+            edges.append((0 in [v for v, _ in t['tg']], t['else']))   # the otherwise edge is the true edge when 0 is listed
             for val, tg in edges:
                 if l in f and f[l] != val:
                     continue
